@@ -16,6 +16,7 @@ open Scalar
 
 @[simp] theorem eps9_real : (Conv.eps9 : ℝ) = 1 / 10 ^ 9 := by simp [Conv.eps9, dec_real]
 @[simp] theorem eps8_real : (Conv.eps8 : ℝ) = 1 / 10 ^ 8 := by simp [Conv.eps8, dec_real]
+@[simp] theorem eps16_real : (Conv.eps16 : ℝ) = 1 / 10 ^ 16 := by simp [Conv.eps16, dec_real]
 @[simp] theorem eps3_real : (Conv.eps3 : ℝ) = 1 / 10 ^ 3 := by simp [Conv.eps3, dec_real]
 @[simp] theorem half_real : (Conv.half : ℝ) = 1 / 2 := by simp [Conv.half, dec_real]; norm_num
 
